@@ -415,10 +415,10 @@ pub fn build(tier: Tier) -> CheckDef {
         level: "model_checking",
         rule: "complete grid of ragged table lengths x entry types x encodings x index alphabet against the reference decode (len = floor(bytes/entsize), get(i) Ok iff i < len, iteration = the whole entries in order); explicit-state exploration of iterator/table operation histories (states de-duplicated on the iterator's Debug state + the reference cursor) checking that no answer depends on history. non-trivial = table with at least one whole entry".into(),
         assumptions: vec!["entry contents are compared through the public fields of each type".into()],
-        spaces: vec![Box::new(Grid { full: tier == Tier::Thorough }), Box::new(Sequences { depth: tier.pick(3, 5) })],
+        spaces: vec![Box::new(Grid { full: tier == Tier::Thorough }), Box::new(Sequences { depth: tier.pick(4, 6) })],
         abort_is_violation: false,
         hang_is_violation: true,
         exhaustive: true,
-        bounds: json!({"history_depth": tier.pick(3, 5)}),
+        bounds: json!({"history_depth": tier.pick(4, 6)}),
     }
 }
